@@ -31,7 +31,7 @@ EPS = refq.EPS
 
 def cases(tier, seed):
     out = []
-    maxd = 6 if tier == "quick" else 9
+    maxd = 6 if tier == "quick" else 12
     rep = 5 if tier == "quick" else 20
     idx = 0
     for m in range(1, maxd + 1):
